@@ -36,7 +36,7 @@ ASSUMPTIONS = [
     "tolerance 1e-10 on sums, 1e-12 on transposes",
 ]
 PROBES = ["mortar_nonmatching", "mortar_one_side_only", "mortar_perturbed_nodes", "secondary_refined", "secondary_copy", "primary_refined", "primary_coarser",
-          "primary_after_nonmatching_mortar", "secondary_after_nonmatching_mortar", "mortar_after_primary", "three_kinds_in_one_run", "immersed_tip", "ge_4_replacements", "mortar_sides_given_in_other_order", "mortar_nonmatching_3d", "secondary_refined_3d", "grid_1d_non_monotone_numbering", "observation_sparse", "observation_end", "both_neighbours_in_one_call", "rejected_mortar_replacement"]
+          "primary_after_nonmatching_mortar", "secondary_after_nonmatching_mortar", "mortar_after_primary", "three_kinds_in_one_run", "immersed_tip", "ge_4_replacements", "mortar_sides_given_in_other_order", "mortar_nonmatching_3d", "secondary_refined_3d", "grid_1d_non_monotone_numbering", "observation_sparse", "observation_end", "both_neighbours_in_one_call", "rejected_mortar_replacement", "nodes_within_tolerance_of_other_grid", "interface_pickled_or_deep_copied"]
 
 TOL = 1e-9
 
@@ -50,8 +50,8 @@ def side_blocks(intf):
     return out
 
 
-def check_interface(mdg, intf, frac_len, where, tr):
-    hi, lo = mdg.interface_to_subdomain_pair(intf)
+def check_interface(mdg, intf, frac_len, where, tr, pair=None):
+    hi, lo = pair if pair is not None else mdg.interface_to_subdomain_pair(intf)
     covered_faces = np.where(hi.tags["fracture_faces"])[0]
     P_int = intf.primary_to_mortar_int().tocsr()
     P_avg = intf.primary_to_mortar_avg().tocsr()
@@ -184,6 +184,12 @@ def new_side_grid(ch, g, tr):
         ng.nodes[0] = x
         ng.compute_geometry()
         tr.probe("mortar_perturbed_nodes")
+    elif n > 2 and ch.flag(1, 4):
+        # slivers: interior nodes a hair (4e-7, below the matching tolerance 1e-6) off their equispaced positions, which
+        # often coincide with nodes of the grid on the other side: overlaps shorter than the tolerance are still overlaps
+        ng.nodes[0, 1:-1] += 4.0e-7 * (1 if ch.flag() else -1)
+        ng.compute_geometry()
+        tr.probe("nodes_within_tolerance_of_other_grid")
     if renumber:
         ng = renumbered_1d(ch, ng, tr)
     return ng, n
@@ -333,7 +339,21 @@ def run_history_c26(ch, tr: Trace) -> None:
             return
         raise Violation("invalid_call_rejected", f"a mortar replacement with a side grid of dimension {bad.dim} for a 1-d interface was accepted")
 
-    ops = [Op("replace_mortar", 4, op_mortar, core=True), Op("replace_secondary", 2, op_secondary), Op("replace_primary", 3, op_primary),
+    def op_pickle():
+        """The interface as restored from a pickle (or deep-copied) must carry the same projections."""
+        import copy
+        import pickle
+
+        hi, lo = mdg.interface_to_subdomain_pair(intf)
+        clone = pickle.loads(pickle.dumps(intf)) if ch.flag() else copy.deepcopy(intf)
+        tr.probe("interface_pickled_or_deep_copied")
+        tr.op("pickle", "ok", changing=False)
+        try:
+            check_interface(mdg, clone, frac_len, last_where[0] + ", on a pickled / deep-copied interface", tr, pair=(hi, lo))
+        except Violation as v:
+            raise Violation(v.inv, v.msg, "restored_interface_differs")
+
+    ops = [Op("replace_mortar", 4, op_mortar, core=True), Op("replace_secondary", 2, op_secondary), Op("replace_primary", 3, op_primary), Op("pickle", 1, op_pickle),
            Op("replace_both_neighbours", 2, op_both_neighbours), Op("rejected_mortar", 1, op_rejected_mortar)]
     run_history(ch, tr, ops, 2, 7)
     check_interface(mdg, intf, frac_len, last_where[0] + " (checked at the end of the history)", tr)
